@@ -40,3 +40,11 @@ func LocalFeatureDataCopyOfType[T any](feature api.FeatureLocalInterface, functi
 func RemoteFeatureDataCopyOfType[T any](remote api.FeatureRemoteInterface, function model.FunctionType) (T, error) {
 	return dataCopyOfType[T](remote.DataCopy(function))
 }
+
+// the device address as string, also if it is not known (yet)
+func addressString(address *model.AddressDeviceType) string {
+	if address == nil {
+		return ""
+	}
+	return string(*address)
+}
